@@ -19,6 +19,8 @@ impl IsSubset for Value {
     #[allow(clippy::too_many_lines)]
     /// Checks if [`JsonShape`] is subset of `other` [`JsonShape`]
     fn is_subset(&self, other: &Self) -> bool {
+        #[cfg(feature = "verif_hooks")]
+        crate::verif_hooks::bump(3);
         match self {
             Self::Null => other.is_optional() || other.is_null(),
             // Optionals
